@@ -315,14 +315,12 @@ func (c *cors) headerIsAllowed(r *http.Request) bool {
 		return true
 	}
 
-	h := strings.TrimSpace(r.Header.Get(header.AccessControlRequestHeaders))
-	if h == "" {
-		return true
-	}
-
-	for _, v := range strings.Split(h, ",") {
-		if !containsFold(c.AllowHeaders, strings.TrimSpace(v)) {
-			return false
+	// 报头可以分多行出现，每一行都需要检测；列表中的空元素不是报头名称，直接忽略。
+	for _, h := range r.Header.Values(header.AccessControlRequestHeaders) {
+		for _, v := range strings.Split(h, ",") {
+			if v = strings.TrimSpace(v); v != "" && !containsFold(c.AllowHeaders, v) {
+				return false
+			}
 		}
 	}
 
